@@ -172,9 +172,13 @@ impl Prop for C07 {
                     case.bound,
                     "theship",
                     |c| {
-                        let mut s = rv::gen_state(c, rv::Layout::Ship, Some(0xF0), 2400, (b'd', b'l'), &[2, 0, 1, 40], &[2, 0, 1, 30]);
-                        // the wrapper checks the app id: a Ship server reports 2400
+                        let mut s = rv::gen_state(c, rv::Layout::Ship, Some(0xF1), 2400, (b'd', b'l'), &[2, 0, 1, 40], &[2, 0, 1, 30]);
+                        // the wrapper checks the app id: a Ship server reports 2400, in the 16-bit field and in the low 24 bits
+                        // of the 64-bit game id (whose upper bits carry the id's kind and a mod id)
                         s.info.appid = 2400;
+                        if let Some(e) = s.info.edf.as_mut() {
+                            e.game_id = Some(crate::rsm::pick(c, &[2400u64, (1 << 24) | 2400, (0xDEAD_BEEF << 32) | (0x7F << 24) | 2400]));
+                        }
                         s
                     },
                     |s| Box::new(rv::ValveServer::new(s.clone(), auto_transport(s, false))),
@@ -191,8 +195,10 @@ impl Prop for C07 {
                     move |c| {
                         let mut s = rv::gen_state(c, rv::Layout::Source, Some(0xB1), 0, (b'd', b'w'), &[2, 0, 1], &[2, 0]);
                         // the app id (489 940) is only expressible through the 64-bit game id
+                        // (only the low 24 bits of a game id are the app id: the byte above them is the id's kind - 1 for a mod -
+                        // and the upper half a mod id)
                         if let Some(e) = s.info.edf.as_mut() {
-                            e.game_id = Some(489_940);
+                            e.game_id = Some(crate::rsm::pick(c, &[489_940u64, (1 << 24) | 489_940, (0xDEAD_BEEF << 32) | 489_940, (0xDEAD_BEEF << 32) | (0x7F << 24) | 489_940]));
                         }
                         let vals = [
                             crate::rsm::pick(c, &["16", "0", "255"]).to_string(),
